@@ -1,5 +1,5 @@
-// unit codec_oplog: src/oplog/entry.rs, src/oplog/header.rs and the Manifest impls of src/encoding.rs
-// against the JS on-disk format of oplog entries and headers (C01 C06 C12)
+// unit codec_oplog: src/oplog/entry.rs against the JS on-disk format of oplog entries (C01 C06);
+// the header codecs are in unit codec_header
 #![feature(allocator_api)]
 use vstd::prelude::*;
 verus! {
@@ -19,7 +19,7 @@ broadcast use vp_std::group_std_gaps, compact_encoding::lemma_enc_uint_len;
 
 //@include shim/node_codec.rs
 /*@ item src/common/mod.rs struct BitfieldUpdate @*/
-//@include shim/oplog_format.rs
+//@include shim/entry_format.rs
 
 impl CompactEncoding for EntryTreeUpgrade {
     open spec fn spec_enc(&self) -> Seq<u8> { Self::dec_enc(*self) }
@@ -309,128 +309,6 @@ impl CompactEncoding for Entry {
                 false by {
                 lemma_schain_step(4, d, flags, r3, r4);
                 lemma_schain_end(d, flags, r4);
-            }
-        }
-    @*/
-}
-
-// ======================= src/oplog/header.rs =======================
-impl CompactEncoding for HeaderTree {
-    open spec fn spec_enc(&self) -> Seq<u8> { Self::dec_enc(*self) }
-    open spec fn dec_enc(d: Self) -> Seq<u8> { header_tree_enc(d) }
-    open spec fn enc_ok(&self) -> bool { true }
-    open spec fn dec_ok(d: Self) -> bool { true }
-    open spec fn eqv(a: Self, b: Self) -> bool { header_tree_eqv(a, b) }
-    /*@ fn src/oplog/header.rs CompactEncoding for HeaderTree::encoded_size ; novis
-    tags: C01 C06 C02 C05
-    result: r
-    ensures:
-        r is Ok ==> r->Ok_0 <= 4 * SIZE_BOUND
-    @*/
-    /*@ fn src/oplog/header.rs CompactEncoding for HeaderTree::encode ; novis
-    tags: C01 C06 C02 C05
-    @*/
-    /*@ fn src/oplog/header.rs CompactEncoding for HeaderTree::decode ; novis
-    tags: C01 C06 C02 C05
-    @*/
-}
-impl CompactEncoding for HeaderHints {
-    open spec fn spec_enc(&self) -> Seq<u8> { Self::dec_enc(*self) }
-    open spec fn dec_enc(d: Self) -> Seq<u8> { header_hints_enc(d) }
-    open spec fn enc_ok(&self) -> bool { true }
-    open spec fn dec_ok(d: Self) -> bool { true }
-    open spec fn eqv(a: Self, b: Self) -> bool { header_hints_eqv(a, b) }
-    /*@ fn src/oplog/header.rs CompactEncoding for HeaderHints::encoded_size ; novis
-    tags: C01 C06 C02 C08
-    result: r
-    ensures:
-        r is Ok ==> r->Ok_0 <= 2 * SIZE_BOUND
-    @*/
-    /*@ fn src/oplog/header.rs CompactEncoding for HeaderHints::encode ; novis
-    tags: C01 C06 C02 C08
-    @*/
-    /*@ fn src/oplog/header.rs CompactEncoding for HeaderHints::decode ; novis
-    tags: C01 C06 C02 C08
-    @*/
-}
-
-// ASSUMED (not yet under contract): the CompactEncoding impls of /repo for PartialKeypair (src/oplog/header.rs)
-// and Manifest / ManifestSigner (src/encoding.rs).  Format from the property text / JS: public key as a
-// 32-byte buffer, then either the single byte 0 (no secret) or a 64-byte buffer secret ++ public.
-impl CompactEncoding for PartialKeypair {
-    open spec fn spec_enc(&self) -> Seq<u8> { Self::dec_enc(*self) }
-    open spec fn dec_enc(d: Self) -> Seq<u8> { enc_keypair(d) }
-    open spec fn enc_ok(&self) -> bool { true }
-    open spec fn dec_ok(d: Self) -> bool { true }
-    open spec fn eqv(a: Self, b: Self) -> bool { keypair_eqv(a, b) }
-    /*@ fn src/oplog/header.rs CompactEncoding for PartialKeypair::encoded_size ; novis
-    tags: C06 C12
-    result: r
-    ensures:
-        r is Ok ==> r->Ok_0 <= 99
-    last:
-        proof { lemma_keypair_enc(*self); }
-    @*/
-    /*@ fn src/oplog/header.rs CompactEncoding for PartialKeypair::encode ; novis
-    tags: C06 C12
-    sub `\[&(.*?)\[\.\.\], &(.*?)\[\.\.\]\]\.concat\(\)` => `vp_concat2(&\1, &\2)`
-    first:
-        proof { lemma_keypair_enc(*self); assert(enc_uint(32) =~= seq![32u8]); assert(enc_uint(64) =~= seq![64u8]); }
-    @*/
-    #[verifier::external_body] fn decode(buffer: &[u8]) -> (r: Result<(Self, &[u8]), EncodingError>) { unimplemented!() }
-}
-/// the key pair of a header: the public key as a 32-byte buffer, then the secret key as a 64-byte buffer (secret ++ public)
-/// or, when the core holds no secret key, a single zero byte - in particular no secret key bytes at all (C12)
-pub proof fn lemma_keypair_enc(d: PartialKeypair)
-    ensures enc_keypair(d).len() == (if d.secret is Some { 98int } else { 34int }),
-        d.secret is None ==> enc_keypair(d) == seq![32u8] + d.public.bytes() + seq![0u8]
-{ broadcast use ed25519_dalek::group_key_lens; }
-/// `[a, b].concat()` of two byte strings
-#[verifier::external_body]
-pub fn vp_concat2(a: &[u8; 32], b: &Vec<u8>) -> (r: Vec<u8>)
-    ensures r@ == a@ + b@
-{ [&a[..], &b[..]].concat() }
-
-impl CompactEncoding for Manifest {
-    open spec fn spec_enc(&self) -> Seq<u8> { Self::dec_enc(*self) }
-    open spec fn dec_enc(d: Self) -> Seq<u8> { enc_manifest(d) }
-    open spec fn enc_ok(&self) -> bool { true }
-    open spec fn dec_ok(d: Self) -> bool { true }
-    open spec fn eqv(a: Self, b: Self) -> bool { manifest_eqv(a, b) }
-    #[verifier::external_body] fn encoded_size(&self) -> (r: Result<usize, EncodingError>) ensures r is Ok ==> r->Ok_0 <= 68 { unimplemented!() }
-    #[verifier::external_body] fn encode<'a>(&self, buffer: &'a mut [u8]) -> (r: Result<&'a mut [u8], EncodingError>) { unimplemented!() }
-    #[verifier::external_body] fn decode(buffer: &[u8]) -> (r: Result<(Self, &[u8]), EncodingError>) { unimplemented!() }
-}
-
-impl CompactEncoding for Header {
-    open spec fn spec_enc(&self) -> Seq<u8> { Self::dec_enc(*self) }
-    open spec fn dec_enc(d: Self) -> Seq<u8> { header_enc(d) }
-    open spec fn enc_ok(&self) -> bool { true }
-    open spec fn dec_ok(d: Self) -> bool { true }
-    open spec fn eqv(a: Self, b: Self) -> bool { header_eqv(a, b) }
-    /*@ fn src/oplog/header.rs CompactEncoding for Header::encoded_size ; novis
-    tags: C01 C06 C02 C12
-    @*/
-    /*@ fn src/oplog/header.rs CompactEncoding for Header::encode ; novis
-    tags: C01 C06 C02 C12
-    first:
-        assert(2u8 | 4u8 == 6u8) by (bit_vector);
-    @*/
-    /*@ fn src/oplog/header.rs CompactEncoding for Header::decode ; novis
-    tags: C01 C06 C02 C12
-    after `let (key, rest) = take_array::<32>(rest)?;`:
-        let ghost r1 = rest@;
-        proof {
-            assert forall|d: Header| #[trigger] pfx(Self::dec_enc(d), buffer@) implies
-                key@ == d.key@ && pfx(header_fields(d), r1) by {
-                lemma_prefix_concat(seq![1u8, 6u8], d.key@ + header_fields(d), buffer@);
-                lemma_prefix_concat(d.key@, header_fields(d), buffer@.skip(2));
-                lemma_pfx_subrange(d.key@, buffer@.skip(2));
-            }
-            assert forall|d: Header| buffer@.len() < Self::dec_enc(d).len() && #[trigger] pfx(buffer@, Self::dec_enc(d)) implies
-                r1.len() < header_fields(d).len() && pfx(r1, header_fields(d)) by {
-                lemma_strict_prefix_concat(seq![1u8, 6u8], d.key@ + header_fields(d), buffer@);
-                lemma_strict_prefix_concat(d.key@, header_fields(d), buffer@.skip(2));
             }
         }
     @*/
